@@ -14,6 +14,7 @@ from sa.model import AnalysisError, CallGraph, effects, exception_class_of_raise
 from sa.report import RuleResult
 
 ROOT = 'PyBufrKitError'
+BUILTIN_EXC_NAMES = ('Exception', 'ValueError', 'TypeError', 'KeyError', 'IndexError', 'IOError', 'OSError', 'RuntimeError', 'StopIteration', 'AttributeError', 'NotImplementedError', 'AssertionError')
 
 # (qualified function, construct) -- reason           (DESIGN appendix A.4)
 # Exemptions: (module, kind, where it was confirmed by hand, normalised text of the construct) -- reason.  An entry matches the
@@ -264,8 +265,18 @@ def rule_stream_commands(repo, rule='C12.R11'):
     rr = RuleResult(rule, 'stream commands deliver each message before asking the scanner for the next one (the messages before a damaged one are delivered)')
     mod = repo.module('commands')
     users = []
+    def scans(f, seen=()):
+        """f calls generate_bufr_message itself or through a module-level helper of the commands module"""
+        for c in effects(f).calls:
+            if isinstance(c.func, ast.Name):
+                if c.func.id == 'generate_bufr_message':
+                    return True
+                g = mod.funcs.get(c.func.id)
+                if g is not None and g is not f and g not in seen and not c.func.id.startswith('command_') and scans(g, seen + (f,)):
+                    return True
+        return False
     for name, fi in sorted(mod.funcs.items()):
-        if name.startswith('command_') and any(isinstance(c.func, ast.Name) and c.func.id == 'generate_bufr_message' for c in effects(fi).calls):
+        if name.startswith('command_') and scans(fi):
             users.append(fi)
     if len(users) < 3:
         raise AnalysisError('only %d commands use generate_bufr_message (expected decode, info, split)' % len(users))
@@ -307,8 +318,12 @@ def rule_stream_commands(repo, rule='C12.R11'):
                 return self.NOT_HANDLED
             if text in ('print',) or text.startswith('json.'):
                 return Top('text')
+            from sa.patheval import ClassRef as _CR
+            if isinstance(callee, _CR) and not (callee.name in BUILTIN_EXC_NAMES or repo.has_cls(callee.name) and repo.is_subclass(callee.name, ROOT)):
+                # a collaborator class (Decoder, renderers), however the call names it (directly, or a class taken from a table / held
+                # in a variable): an object whose methods record the messages they are given
+                return Stub(callee.name)
             if text[:1].isupper() and '.' not in text:
-                # a collaborator class (Decoder, renderers): an object whose methods record the messages they are given
                 return Stub(text)
             return self.NOT_HANDLED
 
